@@ -282,6 +282,8 @@ struct Tracee {
     fault_all: Option<(String, i64)>,
     /// how many more matching calls fail (None: all of them)
     fault_left: Option<u64>,
+    /// only path-based calls whose directory (as reported: "W", "W/.kismet_0000", ...) is one of these fail (empty: any)
+    fault_dirs: Vec<String>,
     /// calls performed inside the current operation (a bound turns an endless retry loop into a "stuck" event)
     calls_in_op: usize,
     ops_done: usize,
@@ -1109,7 +1111,8 @@ fn advance(t: &mut Tracee, ctx: &mut RunCtx, sched: bool, stop_after_ret: bool) 
                     return Adv::Crashed;
                 }
                 if let Some((name, errno)) = &t.fault_all {
-                    if call.name == name && (t.phase == "lib" || t.phase == "cb") && t.fault_left != Some(0) {
+                    let dir_ok = t.fault_dirs.is_empty() || call.path.as_ref().map(|l| t.fault_dirs.contains(&l.d)).unwrap_or(false);
+                    if call.name == name && dir_ok && (t.phase == "lib" || t.phase == "cb") && t.fault_left != Some(0) {
                         if let Some(n) = t.fault_left {
                             t.fault_left = Some(n - 1);
                         }
@@ -1620,6 +1623,7 @@ fn run_stage(stage: &Value, ctx: &mut RunCtx, actor: &str, job: &Value, strategy
             fault_at: p["fault_at"].as_u64().map(|x| (x as usize, errno_of_name(p["fault_errno"].as_str().unwrap_or("EIO")))),
             fault_all: p["fault_all"]["call"].as_str().map(|c| (c.to_string(), errno_of_name(p["fault_all"]["errno"].as_str().unwrap_or("EIO")))),
             fault_left: p["fault_all"]["count"].as_u64(),
+            fault_dirs: p["fault_all"]["dirs"].as_array().map(|a| a.iter().filter_map(|x| x.as_str().map(|y| y.to_string())).collect()).unwrap_or_default(),
             calls_in_op: 0,
             ops_done: 0,
             callnames: Vec::new(),
